@@ -223,4 +223,110 @@ theorem C07t_pred_covered (n : Nat) (f : Bool) (prog : Nat → List Op) (log : L
   · exact Or.inr (Or.inl hb)
   · exact Or.inr (Or.inr hr)
 
+/-! ## Non-vacuity and the classic lost wake-up -/
+
+/-- the classic shape without a predicate: thread 0 `lock; wait; unlock`, thread 1
+    `lock; notify_all; unlock` -/
+def lostProg : Nat → List Op :=
+  fun t => if t = 0 then [.lock, .wait false false, .unlock]
+           else if t = 1 then [.lock, .notify true, .unlock] else []
+
+/-- the notifier runs first: `notify_all` finds the queue empty, then the waiter enqueues and parks -/
+def lostRun : List Ev :=
+  [.inv 1 .lock, .ulAcq 1, .inv 1 (.notify true), .slAcq 1, .cvAll 1 0, .slRel 1, .ret 1 0,
+   .inv 1 .unlock, .ulRel 1, .done 1,
+   .inv 0 .lock, .ulAcq 0, .inv 0 (.wait false false), .slAcq 0, .ulRel 0, .cvEnq 0 1 false,
+   .slRel 0, .suspend 0]
+
+/-- the waiter runs first: it is popped by the `notify_all`, every operation returns -/
+def goodRun : List Ev :=
+  [.inv 0 .lock, .ulAcq 0, .inv 0 (.wait false false), .slAcq 0, .ulRel 0, .cvEnq 0 1 false,
+   .slRel 0, .suspend 0,
+   .inv 1 .lock, .ulAcq 1, .inv 1 (.notify true), .slAcq 1, .cvAll 1 1, .popAll 1 0 0 false,
+   .slRel 1, .ret 1 0, .inv 1 .unlock, .ulRel 1, .done 1,
+   .woke 0, .slAcq 0, .cvWoke 0 false false, .slRel 0, .ulAcq 0, .ret 0 0, .inv 0 .unlock,
+   .ulRel 0, .done 0]
+
+/-- both runs are accepted logs of the program (`decide`-checked) -/
+example : (runLog pstep (pinit 2 false lostProg) lostRun).isSome = true := by decide
+example : (runLog pstep (pinit 2 false lostProg) goodRun).isSome = true := by decide
+
+/-- **The lost wake-up blocks for ever.**  `lostRun` is a *maximal* run of `lostProg` (no event is
+    accepted after it) that ends with the notifier finished and the waiter parked in `wait` with no
+    notification owed to it — the `notify_all` was issued before it enqueued (`cov 0 = false`).
+    So "the program contains a `notify_all`" does not imply that all operations return: covering
+    has to be stated in log order (`C07t_covered_all_return`), or with a predicate
+    (`C07t_pred_covered`). -/
+example : ∃ p, runLog pstep (pinit 2 false lostProg) lostRun = some p ∧ PStuck p ∧
+    p.s.pc 1 = .fin ∧ ParkedUnowed p.s lostRun 0 ∧ lostRun.length ≤ bound 2 lostProg := by
+  refine ⟨_, rfl, ?_, by decide, ⟨by decide, by decide, by decide, by decide, by decide, by decide⟩, by decide⟩
+  apply pstuck_of_rest
+  intro t ht
+  have ht' : t < 2 := ht
+  revert t
+  decide
+
+/-- the same program has a maximal run in which every operation returns: the waiter was covered
+    (`cov 0 = true`, hypothesis of `C07t_covered_all_return`) -/
+example : ∃ p, runLog pstep (pinit 2 false lostProg) goodRun = some p ∧ PStuck p ∧
+    (∀ t, t < 2 → p.s.pc t = .fin) ∧ (obsGLog gh0 goodRun).cov 0 = true ∧
+    goodRun.length ≤ bound 2 lostProg := by
+  refine ⟨_, rfl, ?_, by decide, rfl, by decide⟩
+  apply pstuck_of_rest
+  intro t ht
+  have ht' : t < 2 := ht
+  left
+  revert t
+  decide
+
+/-- the predicate shape: thread 0 `lock; wait(pred); unlock`, thread 1
+    `lock; flag = true; notify_all; unlock` -/
+def predProg : Nat → List Op :=
+  fun t => if t = 0 then [.lock, .wait false true, .unlock]
+           else if t = 1 then [.lock, .set true, .notify true, .unlock] else []
+
+/-- waiter first, woken by the `notify_all`, returns `true` -/
+def predRun : List Ev :=
+  [.inv 0 .lock, .ulAcq 0, .inv 0 (.wait false true), .pred 0 false, .slAcq 0, .ulRel 0,
+   .cvEnq 0 1 false, .slRel 0, .suspend 0,
+   .inv 1 .lock, .ulAcq 1, .inv 1 (.set true), .setFlag 1 true, .inv 1 (.notify true), .slAcq 1,
+   .cvAll 1 1, .popAll 1 0 0 false, .slRel 1, .ret 1 0, .inv 1 .unlock, .ulRel 1, .done 1,
+   .woke 0, .slAcq 0, .cvWoke 0 false false, .slRel 0, .ulAcq 0, .pred 0 true, .ret 0 1,
+   .inv 0 .unlock, .ulRel 0, .done 0]
+
+/-- notifier first: the waiter finds the predicate true and never enqueues -/
+def predRun2 : List Ev :=
+  [.inv 1 .lock, .ulAcq 1, .inv 1 (.set true), .setFlag 1 true, .inv 1 (.notify true), .slAcq 1,
+   .cvAll 1 0, .slRel 1, .ret 1 0, .inv 1 .unlock, .ulRel 1, .done 1,
+   .inv 0 .lock, .ulAcq 0, .inv 0 (.wait false true), .pred 0 true, .ret 0 1,
+   .inv 0 .unlock, .ulRel 0, .done 0]
+
+/-- both orders are accepted, maximal, end with every thread finished and satisfy the hypotheses
+    of `C07t_pred_covered` (flag true, not dirty) -/
+example : ∃ p, runLog pstep (pinit 2 false predProg) predRun = some p ∧ PStuck p ∧
+    (∀ t, t < 2 → p.s.pc t = .fin) ∧ p.s.flag = true ∧ (obsGLog gh0 predRun).dirty = false ∧
+    predRun.length ≤ bound 2 predProg := by
+  refine ⟨_, rfl, ?_, by decide, rfl, rfl, by decide⟩
+  apply pstuck_of_rest
+  intro t ht
+  have ht' : t < 2 := ht
+  left
+  revert t
+  decide
+
+example : ∃ p, runLog pstep (pinit 2 false predProg) predRun2 = some p ∧ PStuck p ∧
+    (∀ t, t < 2 → p.s.pc t = .fin) ∧ p.s.flag = true ∧ (obsGLog gh0 predRun2).dirty = false := by
+  refine ⟨_, rfl, ?_, by decide, rfl, rfl⟩
+  apply pstuck_of_rest
+  intro t ht
+  have ht' : t < 2 := ht
+  left
+  revert t
+  decide
+
+/-- the measure along `goodRun`: it starts at `n = 2` (two idle threads), every `inv` adds the
+    potential of its operation, every other event takes at least 1 -/
+example : mu (init 2 false) = 2 := by decide
+example : bound 2 lostProg = 2 + (2 + 19 + 2) + (2 + (29 * 2 + 6) + 2) := by decide
+
 end PikaVerif.C07t
